@@ -23,7 +23,7 @@ META = {
   "h_multiply": {"kind": "G",
     "functions": ["Multiplication.multiply/_compute_copy_names/__divide_segment_and_connection_counts/__clone_segment_and_connections/_distribute_links/_select_distribute_end",
                   "Line.clone", "Connection.connect", "Link.__hash__", "Gfa.rm"],
-    "bounds": "segment X (sequence, RC count from {0,1,7,50,99} (thorough; quick 7), edge count from {0,5,98}, custom tag) with a neighbourhood chosen from 11 shapes (incl. ID-tagged edges, textually identical parallel containments, two self-containments whose contents become equal after division) (1-3 links on R, links on both ends, parallel links, self link, hairpin, containments either way, names already ending in *2) x factor -1..4 x policy in {None, off, auto, equal, L, R} x copy names given or automatic; statement-derived expectations + reference-graph invariant + neighbourhood oracle",
+    "bounds": "segment X (sequence, RC count 7 or none with edge count 5 (quick); thorough adds (RC, edge count) in {(0,0), (7,5), (99,98)}, custom tag) with a neighbourhood chosen from 11 shapes (incl. ID-tagged edges, textually identical parallel containments, two self-containments whose contents become equal after division) (1-3 links on R, links on both ends, parallel links, self link, hairpin, containments either way, names already ending in *2) x factor -1..4 x policy in {None, off, auto, equal, L, R} x copy names given or automatic; statement-derived expectations + reference-graph invariant + neighbourhood oracle",
     "timeout": {"quick": 400, "thorough": 900}, "parts": {"quick": 16, "thorough": 16}},
  },
 }
@@ -125,7 +125,7 @@ def h_multiply(si: int, factor: int, pi: int, named: bool, star: bool, rci: int,
   """
   pre: 0 <= si < NSH and -1 <= factor <= 4 and 0 <= pi < 6
   pre: -1 <= rci < 5 and 0 <= erci < 3
-  pre: THOROUGH or ((rci == 2 or rci == -1) and erci == 1)
+  pre: ((rci == 2 or rci == -1) and erci == 1) or (THOROUGH and rci % 2 == 0 and erci == (rci // 2) % 3)
   pre: (si * 6 + pi) % NPART == PART
   post: _ == True
   """
